@@ -47,6 +47,7 @@ QUALIFIERS = {
     "temporary": ", std.Temporary",
     "signal": ", std.Signal",
     "ref": ", std.Ref",               # documented to work only for trivially serialisable types
+    "variable": ", std.Variable",     # inside a (clock-less) std.sequential process
 }
 
 
@@ -394,7 +395,7 @@ class Renderer:
                 body.append(f"    {name} = Port.output({pt})")
             body.append("")
             body.append("    def architecture(self):")
-            body.append("        @std.concurrent")
+            body.append("        @std.sequential" if q == "variable" else "        @std.concurrent")
             body.append("        def logic():")
             body.append(f"            obj = {from_bits_expr('self.inp', q)}")
             for s in stmts:
